@@ -73,7 +73,7 @@ def rule_a(ctx):
         cl, p, cons = cps[0]
         ctx.fn(cl); ctx.fn(p)
         ss = [s for s in sites(F, cl) if s.op not in ("load",)]
-        okk = len(ss) == 1 and ss[0].op == "store"
+        okk = len(ss) == 1 and ss[0].op in ("store", "swap", "fetch_or")
         why = None
         if okk:
             once, w = exactly_once(cl, [ss[0].bb])
@@ -91,13 +91,16 @@ def rule_a(ctx):
         val = [deep_strip(e) for e in flow(cl).term_arg(s.bb, 1)]
         if want[0] == "const":
             okv = [fold(e) for e in val] == [want[1]]
+        elif s.op == "fetch_or":
+            okv = False      # fetch_or cannot install an arbitrary registered value
         else:
             kv = upvar_index(val[0]) if len(val) == 1 else None
             okv = kv is not None and captured_param(p, cons, kv) == want[1]
         ctx.check(okv, rid, "%s:value" % parent.split("::")[-1], "the stored value is %s" % ("the constant true" if want[0] == "const" else "the registered value"), s.sp,
                   [show(e) for e in val])
         names = s.orders[0] if s.orders else []
-        ctx.check(names and all(n in ("Relaxed", "Release", "SeqCst") for n in names), rid, "%s:ordering" % parent.split("::")[-1],
+        ctx.check(names and all(n in ("Relaxed", "Release", "SeqCst", "AcqRel", "Acquire") for n in names) and
+                  (s.op != "store" or all(n in ("Relaxed", "Release", "SeqCst") for n in names)), rid, "%s:ordering" % parent.split("::")[-1],
                   "constant, store-valid ordering %s" % names, s.sp, names)
         _registered_for_param(ctx, rid, F, p, parent)
 
